@@ -87,7 +87,7 @@ RespDefs ==
 Q(n, vs) == H(n, n, vs)                 \* query parameter names are case-sensitive
 EQ(n, p, z, b) == [cname |-> n, m |-> M(p, z), b64 |-> b]
 Verbs   == {"GET", "POST", "PUT", "DELETE", ""}
-Paths   == {"/connectrpc.conformance.v1.ConformanceService/Unary", "/foo/bar.baz"}
+Paths   == {"/connectrpc.conformance.v1.ConformanceService/Unary", "/foo/bar.baz", "/foo%2Fbar%3Fq/x%7e"}
 InlineQ == << <<>>, <<Q("q", <<"q">>), Q("x", <<"456">>)>>, <<Q("x", <<"456">>), Q("q", <<"q", "r">>)>> >>   \* (the last: names not in alphabetical order)
 RawQ == <<
   <<>>,
